@@ -100,6 +100,27 @@ Definition v_tensordot_check (ea eb : list Z) : res pyv :=
 Definition v_dot_1d_check (la lb : Z) : res pyv :=
   sv_dot_1d_shape_check (VTuple [VInt la]) (VTuple [VInt lb]).
 
+(* _common.moveaxis: the validation statements run in the GENERATED order (Gen/S_validators.v:
+   site_moveaxis_steps); the function then ends in a.transpose(order), whose "repeated axis in transpose"
+   test is what rejects a repeated SOURCE axis (order omits an axis and names another twice).
+   A list of axes is repeat-free iff nodupb. *)
+Fixpoint v_moveaxis_run (steps : list mv_step) (src dst : list Z) (ndim : Z) : res (list Z * list Z) :=
+  match steps with
+  | [] => Ok (src, dst)
+  | MvNormSrc :: r => n <- v_normalize_axes src ndim ;; v_moveaxis_run r n dst ndim
+  | MvNormDst :: r => n <- v_normalize_axes dst ndim ;; v_moveaxis_run r src n ndim
+  | MvRepeatDst :: r => if nodupb dst then v_moveaxis_run r src dst ndim else Raise ValueError
+  | MvLen :: r => if (length src =? length dst)%nat then v_moveaxis_run r src dst ndim else Raise ValueError
+  end.
+
+Definition v_moveaxis (src dst : list Z) (ndim : Z) : res (list Z * list Z) :=
+  '(s, d) <- v_moveaxis_run site_moveaxis_steps src dst ndim ;;
+  if nodupb s then Ok (s, d) else Raise ValueError.
+
+(* numpy.moveaxis: normalize_axis_tuple on both arguments (range, no repeats AFTER normalisation), equal lengths *)
+Definition np_moveaxis_ok (src dst : list Z) (ndim : Z) : bool :=
+  np_axes_ok src ndim && np_axes_ok dst ndim && (length src =? length dst)%nat.
+
 (* matmul(a, b): `if a.ndim == 0 or b.ndim == 0: raise ValueError` *)
 Definition v_matmul_0d_check (nda ndb : Z) : res pyv := sv_matmul_0d_check (VInt nda) (VInt ndb).
 
@@ -156,7 +177,8 @@ Inductive vop :=
 | MCaxes (ndim : Z) (ca : option (list Z))
 | MDot1d (la lb : Z)
 | MMatmulNd (nda ndb : Z)
-| MEinsumOut (cnt : Z).
+| MEinsumOut (cnt : Z)
+| MMoveaxis (src dst : list Z) (ndim : Z).
 
 Definition verdict {A} (r : res A) : option exc := match r with Ok _ => None | Raise e => Some e end.
 
@@ -177,6 +199,7 @@ Definition model_verdict (m : vop) : option (option exc) :=
   | MDot1d a b => Some (verdict (v_dot_1d_check a b))
   | MMatmulNd a b => Some (verdict (v_matmul_0d_check a b))
   | MEinsumOut c => Some (verdict (v_einsum_out_count_check c))
+  | MMoveaxis a b nd => Some (verdict (v_moveaxis a b nd))
   end.
 
 (* NumPy's verdict on the same argument (Spec/NpValid.v); true = accepts *)
@@ -196,6 +219,7 @@ Definition vop_np_accepts (m : vop) : bool :=
   | MDot1d a b => a =? b
   | MMatmulNd a b => negb ((a =? 0) || (b =? 0))     (* numpy.matmul: operands need at least one dimension *)
   | MEinsumOut c => c =? 1                          (* numpy.einsum: an output subscript appears once *)
+  | MMoveaxis a b nd => np_moveaxis_ok a b nd
   end.
 
 Definition clean (e : exc) : bool :=
